@@ -49,6 +49,10 @@ def make(rule_id, pid=None):
                 triggers = [None]
             else:
                 triggers = [c for c in v.calls.values() if _match_call(pr, c, trig)]
+                if trig.get("when"):
+                    from prov import guards as _guards
+                    g_ = _guards(ctx, f)
+                    triggers = [c for c in triggers if all(any(re.search(rx, a) for a in g_.atoms_at(("t", c.bb))) for rx in trig["when"])]
             if not triggers:
                 res.gone.append(row["id"])
                 continue
